@@ -278,7 +278,8 @@ fn loc_of(vm: &Vm) -> Loc {
     let id = if fp == 0 {
         ContractId::zeroed()
     } else {
-        ContractId::new(vm.memory().read_bytes::<32>(fp).expect("call frame readable"))
+        let b: [u8; 32] = vm.memory().read_bytes(fp).expect("call frame readable");
+        ContractId::new(b)
     };
     (id, vmkit::reg(vm, RegId::PC).wrapping_sub(vmkit::reg(vm, RegId::IS)))
 }
@@ -352,7 +353,10 @@ impl Mode {
 }
 
 struct Event {
+    /// location named by the event
     loc: Loc,
+    /// where the VM stands (frame contract from memory at $fp, $pc - $is)
+    vm_loc: Loc,
     regs: [u64; vmkit::REGS],
     nrec: usize,
 }
@@ -403,6 +407,7 @@ fn drive(vm: &mut Vm, ready: &Ready<Script>, max_events: usize) -> (Vec<Event>, 
             ProgramState::RunProgram(DebugEval::Breakpoint(b)) => {
                 events.push(Event {
                     loc: (*b.contract(), b.pc()),
+                    vm_loc: loc_of(vm),
                     regs: vmkit::regs(vm),
                     nrec: vm.receipts().len(),
                 });
@@ -468,17 +473,10 @@ fn judge_events(trace: &[TStep], events: &[Event], armed: &[Loc], single: bool) 
         if !is_armed(&e.loc) {
             return Err(("event.location-not-armed", format!("event #{i} names {} which is not an armed location", loc_str(&e.loc))))
         }
-        let own_pc = e.regs[RegId::PC.to_u8() as usize].wrapping_sub(e.regs[RegId::IS.to_u8() as usize]);
-        let in_call = e.regs[RegId::FP.to_u8() as usize] != 0;
-        if own_pc != e.loc.1 || in_call != (e.loc.0 != ContractId::zeroed()) {
+        if e.vm_loc != e.loc {
             return Err((
                 "event.location-is-not-vm-position",
-                format!(
-                    "event #{i} names {} but the VM stands at $pc-$is = {} ({})",
-                    loc_str(&e.loc),
-                    own_pc,
-                    if in_call { "inside a call" } else { "script context" }
-                ),
+                format!("event #{i} names {} but the VM stands at {} (frame contract, $pc-$is)", loc_str(&e.loc), loc_str(&e.vm_loc)),
             ))
         }
         let same = |t: &TStep| t.loc == e.loc && t.regs == e.regs && t.nrec == e.nrec;
